@@ -62,6 +62,7 @@ type ReplayOutcome struct {
 	Detail      string   `json:"detail"`
 	Got         []string `json:"got"`
 	Trace       []string `json:"trace,omitempty"`
+	Resampled   int      `json:"resampled,omitempty"`
 }
 
 func LoadWorkerCfg() (*WorkerCfg, error) {
@@ -236,6 +237,14 @@ func doReplay(e Engine, cfg *WorkerCfg) *ReplayOutcome {
 	}
 	o.Fingerprint = rf.Fingerprint
 	res := e.Execute(rf.Property, rf.Plan, true)
+	// divergences that depend on Go's native map order or goroutine scheduling are re-sampled:
+	// the same plan is executed again until two replicas differ (see DESIGN.md, replay "resampled")
+	if rs, ok := e.(interface{ Resamples(prop string) int }); ok {
+		for i := 0; i < rs.Resamples(rf.Property) && res.Aborted == "" && !res.HasFingerprint(rf.Fingerprint); i++ {
+			res = e.Execute(rf.Property, rf.Plan, true)
+			o.Resampled = i + 1
+		}
+	}
 	if res.Aborted != "" {
 		o.Detail = "aborted: " + res.Aborted
 		return o
